@@ -757,8 +757,20 @@ pub fn fuzz_drive(h: fn(), needles: &[&str], tries: usize) {
         } else {
         match (k / 2) % 4 {
             3 => {
-                for b in bytes.iter_mut() {
-                    *b = rnd() as u8;
+                if k % 16 < 8 {
+                    for b in bytes.iter_mut() {
+                        *b = rnd() as u8;
+                    }
+                } else {
+                    // small-value sparse: every byte independently non-zero with probability 1/den, values mostly below 8
+                    // (indices, flags and kinds stay in range, bitboards stay sparse and mostly disjoint)
+                    let den = [2u64, 3, 4, 6, 8, 12][(rnd() % 6) as usize];
+                    for b in bytes.iter_mut() {
+                        let r = rnd();
+                        if r % den == 0 {
+                            *b = if (r >> 8) % 4 != 0 { ((r >> 16) % 8) as u8 } else { (r >> 16) as u8 };
+                        }
+                    }
                 }
             }
             2 => {
